@@ -1,14 +1,16 @@
 #!/bin/bash
-# Development tool: seed2.sh <Cxx> <k>  - confirm /tmp/seed2-Cxx/k in its worktree, store as seeded/Cxx-(k+2), trial it
-p=$1; k=$2; src=/tmp/seed2-$p/$k; id=$p-$((k+2)); wt=/tmp/wt2-$p
+# Development tool: seedN.sh <round> <Cxx> <k>  - confirm /tmp/seed<round>-Cxx/k in its worktree /tmp/wt<round>-Cxx,
+# store it as seeded/Cxx-(k+2*(round-1)), and trial it against its property's quick check
+r=$1; p=$2; k=$3; src=/tmp/seed$r-$p/$k; id=$p-$((k+2*(r-1))); wt=/tmp/wt$r-$p
+cd $(dirname $0)/..
 [ -f $src/patch.diff ] || { echo "$id: no patch"; exit 1; }
 res=$(tools/verify_seed.sh $wt $src 2>&1); echo "$id verify: $(echo "$res" | head -2 | tr '\n' ' ')"
 echo "$res" | grep -q CONFIRMED || { echo "$res" | tail -20; exit 1; }
 mkdir -p seeded/$id; cp $src/patch.diff $src/demo_test.go seeded/$id/
-python3 - $src/meta.json seeded/$id/meta.json $wt <<'PY'
+python3 - $src/meta.json seeded/$id/meta.json $wt $r <<'PY'
 import json,sys
 m=json.load(open(sys.argv[1]))
-m["author"]="independent sub-agent (round 2) given only the property text, the summaries of the round-1 changes and a scratch worktree"
+m["author"]="independent sub-agent (round %s) given only the property text, the summaries of the earlier changes and a scratch worktree" % sys.argv[4]
 m["confirmed_by_me"]={"tool":"tools/verify_seed.sh (scratch worktree %s, removed afterwards)"%sys.argv[3],"demo_passes_without_patch":True,"demo_fails_with_patch":True,"existing_suite_passes_with_patch":True}
 json.dump(m,open(sys.argv[2],"w"),indent=1,ensure_ascii=False)
 PY
